@@ -1,14 +1,637 @@
-import LitexModel.Wishbone.Interconnect
+import LitexProofs.Wishbone.Interconnect
 /-
-  C06 — Wishbone interconnect routes each cycle to one slave and answers only its master.  (work in progress)
+  C06 — Wishbone interconnect routes each cycle to one slave and answers only its master.
+
+  Models: `Shared.machine c` (= `InterconnectShared`: `Arbiter` → shared bus → `Decoder` [+ `Timeout`]) and
+  `Crossbar.machine c` (= `Crossbar`: one `Decoder` per master, one `Arbiter` per slave) of
+  `LitexModel/Wishbone/Interconnect.lean`.  Masters and slaves are environment: `x : BusIn` gives, for one cycle,
+  arbitrary values of every master's cyc/stb/we/adr/dat_w/sel/cti/bte and every slave's ack/err/dat_r.
+
+  Quantifiers.  Per-cycle theorems hold for EVERY state `s` and EVERY input `x` (hence for every reachable state
+  and every schedule); run theorems are by induction over `ins : List BusIn` (every request arrival pattern,
+  withdrawals, back-to-back and simultaneous requests, every slave latency).  Numbers of masters/slaves `c.n`,
+  `c.m`, the address predicates `c.dec`, `c.reg`, the timeout and the data width are arbitrary.
+  Side conditions are explicit:
+    `DisjointDec c.m c.dec`     pairwise disjoint address predicates (C13 provides this for SoC regions),
+    `SlavesBehaved c.m o x`     a slave answers only a strobe that is presented to it (environment),
+    `s.grant < c.n`             holds in every reachable state (`wb_owner_is_master`).
+  The `Timeout` module is part of the model (`c.timeout`); where it can interfere the statements carry the
+  explicit term `Shared.done c s` (its theorems are C11's).
 -/
 namespace Litex.C06
 open Litex Litex.Wishbone
 
-/-- Shared interconnect: a master that sees `ack` or `err` is the bus owner. -/
-theorem wb_answer_owner_only_grant (c : ShCfg) (s : ShState) (x : BusIn) (i : Nat)
-    (h : ((Shared.out c s x).toM i).ack = true ∨ ((Shared.out c s x).toM i).err = true) : s.grant = i := by
-  simp [Shared.out] at h
-  rcases h with h | h <;> exact h.2
+/-! ## InterconnectShared -/
+section SharedThms
+variable (c : ShCfg)
+
+/-- **Routing.**  Slave `j` sees `cyc` iff the bus owner drives `cyc` and slave `j`'s address predicate matches
+    the owner's address; every other master-to-slave signal is the owner's, bit for bit. -/
+theorem wb_route (s : ShState) (x : BusIn) (j : Nat) :
+    let o := Shared.out c s x
+    let own := x.ms s.grant
+    (o.toS j).cyc = (own.cyc && c.dec j own.adr) ∧
+    (o.toS j).stb = own.stb ∧ (o.toS j).we = own.we ∧ (o.toS j).adr = own.adr ∧
+    (o.toS j).datW = own.datW ∧ (o.toS j).sel = own.sel ∧ (o.toS j).cti = own.cti ∧ (o.toS j).bte = own.bte := by
+  simp [Shared.out, Shared.bus, Shared.sel]
+
+/-- With pairwise-disjoint decoders at most one slave sees the cycle. -/
+theorem wb_route_one_slave (hd : DisjointDec c.m c.dec) (s : ShState) (x : BusIn) (j k : Nat)
+    (hj : j < c.m) (hk : k < c.m)
+    (h1 : ((Shared.out c s x).toS j).cyc = true) (h2 : ((Shared.out c s x).toS k).cyc = true) : j = k := by
+  simp [Shared.out, Shared.bus, Shared.sel] at h1 h2
+  exact hd _ j k hj hk h1.2 h2.2
+
+/-- A cycle whose address matches no decoder is presented to no slave. -/
+theorem wb_route_none (s : ShState) (x : BusIn)
+    (hnone : ∀ j, j < c.m → c.dec j (x.ms s.grant).adr = false) (j : Nat) (hj : j < c.m) :
+    ((Shared.out c s x).toS j).cyc = false := by
+  simp [Shared.out, Shared.bus, Shared.sel, hnone j hj]
+
+/-- The owner is always one of the masters: in every reachable state `grant < n`. -/
+theorem wb_owner_is_master (hn : 0 < c.n) (ins : List BusIn) : ((Shared.machine c).run ins).grant < c.n :=
+  Shared.grant_lt_run c hn ins
+
+/-- **Answers reach the owner only.**  A master that sees `ack` or `err` is the owner; the owner's `ack` is the OR
+    of the slaves' `ack` (or the timeout's forced acknowledge), its `err` the OR of the slaves' `err`. -/
+theorem wb_answer_owner_only (s : ShState) (x : BusIn) (i : Nat) :
+    let o := Shared.out c s x
+    (((o.toM i).ack = true ∨ (o.toM i).err = true) → s.grant = i) ∧
+    (o.toM s.grant).ack = (Shared.done c s || orAll c.m fun j => (x.ss j).ack) ∧
+    (o.toM s.grant).err = (orAll c.m fun j => (x.ss j).err) := by
+  refine ⟨?_, ?_, ?_⟩
+  · intro h
+    simp [Shared.out] at h
+    rcases h with h | h <;> exact h.2
+  · simp [Shared.out, Shared.busAck, Shared.decAck]
+  · simp [Shared.out, Shared.busErr, Shared.decErr]
+
+/-- Slaves that answer only presented strobes, disjoint decoders: only the selected slave can be answering. -/
+theorem wb_only_selected_answers (hd : DisjointDec c.m c.dec) (s : ShState) (x : BusIn)
+    (hb : SlavesBehaved c.m (Shared.out c s x) x) (j : Nat) (hj : j < c.m)
+    (hsel : c.dec j (x.ms s.grant).adr = true) (k : Nat) (hk : k < c.m) (hne : k ≠ j) : sTerm x k = false := by
+  cases h : sTerm x k
+  · rfl
+  · have := (hb k hk h).1
+    simp [Shared.out, Shared.bus, Shared.sel] at this
+    exact absurd (hd _ k j hk hj this.2 hsel) hne
+
+/-- … then the owner's `ack`/`err` are exactly the selected slave's (or the timeout's). -/
+theorem wb_answer_selected (hd : DisjointDec c.m c.dec) (s : ShState) (x : BusIn)
+    (hb : SlavesBehaved c.m (Shared.out c s x) x) (j : Nat) (hj : j < c.m)
+    (hsel : c.dec j (x.ms s.grant).adr = true) :
+    let o := Shared.out c s x
+    (o.toM s.grant).ack = (Shared.done c s || (x.ss j).ack) ∧ (o.toM s.grant).err = (x.ss j).err := by
+  have hothers := wb_only_selected_answers c hd s x hb j hj hsel
+  have ha : (orAll c.m fun k => (x.ss k).ack) = (x.ss j).ack :=
+    orAll_unique hj (fun k hk hne => by have := hothers k hk hne; simp [sTerm] at this; exact this.1)
+  have he : (orAll c.m fun k => (x.ss k).err) = (x.ss j).err :=
+    orAll_unique hj (fun k hk hne => by have := hothers k hk hne; simp [sTerm] at this; exact this.2)
+  simp [Shared.out, Shared.busAck, Shared.decAck, Shared.busErr, Shared.decErr, ha, he]
+
+/-- Unregistered decoder: every acknowledge carries the selected slave's read data (all masters see the shared
+    `dat_r`; it is meaningful for the owner, the only one that sees `ack`). -/
+theorem wb_dat_r (hd : DisjointDec c.m c.dec) (hreg : c.reg = false) (s : ShState) (x : BusIn)
+    (j : Nat) (hj : j < c.m) (hsel : c.dec j (x.ms s.grant).adr = true) (hto : Shared.done c s = false) (i : Nat) :
+    ((Shared.out c s x).toM i).datR = (x.ss j).datR := by
+  have : Shared.decDat c s x = (x.ss j).datR := by
+    unfold Shared.decDat
+    rw [orDat_unique hj]
+    · simp [gate, Shared.selMux, hreg, Shared.sel, Shared.bus, hsel]
+    · intro k hk hne
+      cases hs : c.dec k (x.ms s.grant).adr
+      · simp [gate, Shared.selMux, hreg, Shared.sel, Shared.bus, hs]
+      · exact absurd (hd _ k j hk hj hs hsel) hne
+  simp [Shared.out, Shared.busDat, hto, this]
+
+/-- FULL STATEMENT (does not hold for `register=True`):
+      `c.dec j (owner's address) → ¬ timeout → (o.toM i).datR = (x.ss j).datR`   in every cycle.
+    `Decoder(register=True)` muxes the read data with the slave select sampled at the previous clock edge, so the
+    claim needs the previous cycle's bus address to decode like the current one ("the acknowledging cycle is not
+    the first cycle of a new address", i.e. slave latency ≥ 1).  `s'` is the state after an arbitrary previous
+    cycle `x₁` from an arbitrary state `s`. -/
+theorem wb_dat_r_registered_partial (hd : DisjointDec c.m c.dec) (hreg : c.reg = true)
+    (s : ShState) (x₁ x₂ : BusIn)
+    (hsame : ∀ k, k < c.m →
+      c.dec k (x₁.ms s.grant).adr = c.dec k (x₂.ms (Shared.next c s x₁).grant).adr)
+    (j : Nat) (hj : j < c.m) (hsel : c.dec j (x₂.ms (Shared.next c s x₁).grant).adr = true)
+    (hto : Shared.done c (Shared.next c s x₁) = false) (i : Nat) :
+    ((Shared.out c (Shared.next c s x₁) x₂).toM i).datR = (x₂.ss j).datR := by
+  have hselR : ∀ k, k < c.m → Shared.selMux c (Shared.next c s x₁) x₂ k =
+      c.dec k (x₂.ms (Shared.next c s x₁).grant).adr := by
+    intro k hk
+    unfold Shared.selMux
+    simp only [hreg, if_true]
+    rw [Shared.selR_next c hreg s x₁ k hk]
+    simp only [Shared.sel, Shared.bus]
+    exact hsame k hk
+  have : Shared.decDat c (Shared.next c s x₁) x₂ = (x₂.ss j).datR := by
+    unfold Shared.decDat
+    rw [orDat_unique hj]
+    · simp [gate, hselR j hj, hsel]
+    · intro k hk hne
+      rw [hselR k hk]
+      cases hs : c.dec k (x₂.ms (Shared.next c s x₁).grant).adr
+      · simp [gate]
+      · exact absurd (hd _ k j hk hj hs hsel) hne
+  simp [Shared.out, Shared.busDat, hto, this]
+
+/-- **Ownership is stable.**  The grant moves only in a cycle in which the owner's `cyc` is low, and then to a
+    master that is requesting (SP_WITHDRAW). -/
+theorem wb_owner_stable (s : ShState) (x : BusIn) (hg : s.grant < c.n)
+    (h : (Shared.next c s x).grant ≠ s.grant) :
+    (x.ms s.grant).cyc = false ∧ (x.ms (Shared.next c s x).grant).cyc = true := by
+  have := RoundRobin.next_change_req .withdraw (fun i => (x.ms i).cyc) true hg h
+  exact ⟨this.2, this.1⟩
+
+/-- The same along every run from reset. -/
+theorem wb_owner_stable_run (hn : 0 < c.n) (ins : List BusIn) (x : BusIn)
+    (h : ((Shared.machine c).run (ins ++ [x])).grant ≠ ((Shared.machine c).run ins).grant) :
+    (x.ms ((Shared.machine c).run ins).grant).cyc = false ∧
+    (x.ms ((Shared.machine c).run (ins ++ [x])).grant).cyc = true := by
+  have hrun : (Shared.machine c).run (ins ++ [x]) = Shared.next c ((Shared.machine c).run ins) x := by
+    simp [Machine.run, Machine.runFrom_append, Machine.runFrom, Shared.machine]
+  rw [hrun] at h ⊢
+  exact wb_owner_stable c _ x (Shared.grant_lt_run c hn ins) h
+
+/-- A bus cycle stays owned by its master until that master ends it: while the owner keeps `cyc` high, the grant
+    does not move, whatever the other masters and the slaves do and however long it takes. -/
+theorem wb_cycle_owned (s : ShState) (hg : s.grant < c.n) (ins : List BusIn)
+    (hold : ∀ x ∈ ins, (x.ms s.grant).cyc = true) :
+    ((Shared.machine c).runFrom s ins).grant = s.grant := by
+  rw [Shared.run_grant]
+  apply RoundRobin.rr_keep_granted hg
+  intro rc hrc
+  simp only [Shared.reqs, List.mem_map] at hrc
+  obtain ⟨x, hx, rfl⟩ := hrc
+  exact hold x hx
+
+/-- **Exactly one termination.**  In a cycle in which the slaves answer only presented strobes (and the timeout
+    does not fire): master `i` sees a termination iff it is the owner, drives `cyc & stb`, and the slave selected
+    by its address terminates; and a terminating slave is seen by exactly one master (the owner) while no other
+    slave terminates in that cycle.  So terminations are neither lost, duplicated nor invented. -/
+theorem wb_one_termination (hd : DisjointDec c.m c.dec) (s : ShState) (x : BusIn)
+    (hb : SlavesBehaved c.m (Shared.out c s x) x) (hto : Shared.done c s = false) :
+    let o := Shared.out c s x
+    (∀ i, mTerm o i = true ↔
+      (s.grant = i ∧ ∃ j, j < c.m ∧ c.dec j (x.ms i).adr = true ∧ (x.ms i).cyc = true ∧ (x.ms i).stb = true ∧
+        sTerm x j = true)) ∧
+    (∀ j, j < c.m → sTerm x j = true →
+      mTerm o s.grant = true ∧ (∀ i, mTerm o i = true → i = s.grant) ∧ (∀ k, k < c.m → sTerm x k = true → k = j)) := by
+  have key : ∀ j, j < c.m → sTerm x j = true →
+      c.dec j (x.ms s.grant).adr = true ∧ (x.ms s.grant).cyc = true ∧ (x.ms s.grant).stb = true := by
+    intro j hj h
+    have := hb j hj h
+    simp [Shared.out, Shared.bus, Shared.sel] at this
+    exact ⟨this.1.2, this.1.1, this.2⟩
+  have mterm : ∀ i, mTerm (Shared.out c s x) i = true ↔ (s.grant = i ∧ ∃ j, j < c.m ∧ sTerm x j = true) := by
+    intro i
+    simp only [mTerm, Shared.out, Shared.busAck, Shared.busErr, Shared.decAck, Shared.decErr, hto, Bool.false_or,
+      Bool.or_eq_true, Bool.and_eq_true, beq_iff_eq, orAll_true, sTerm]
+    constructor
+    · rintro (⟨⟨j, hj, h⟩, hg⟩ | ⟨⟨j, hj, h⟩, hg⟩)
+      · exact ⟨hg, j, hj, Or.inl h⟩
+      · exact ⟨hg, j, hj, Or.inr h⟩
+    · rintro ⟨hg, j, hj, h | h⟩
+      · exact Or.inl ⟨⟨j, hj, h⟩, hg⟩
+      · exact Or.inr ⟨⟨j, hj, h⟩, hg⟩
+  refine ⟨fun i => ?_, fun j hj h => ⟨?_, ?_, ?_⟩⟩
+  · rw [mterm]
+    constructor
+    · rintro ⟨hg, j, hj, h⟩
+      have := key j hj h
+      subst hg
+      exact ⟨rfl, j, hj, this.1, this.2.1, this.2.2, h⟩
+    · rintro ⟨hg, j, hj, _, _, _, h⟩
+      exact ⟨hg, j, hj, h⟩
+  · exact (mterm _).2 ⟨rfl, j, hj, h⟩
+  · intro i hi
+    exact ((mterm i).1 hi).1.symm
+  · intro k hk h'
+    exact hd _ k j hk hj (key k hk h').1 (key j hj h).1
+
+/-- Number of cycles of a run in which master `i` waits (is not the owner) although the owner's `cyc` is low. -/
+def idleWaits (i : Nat) (s : ShState) : List BusIn → Nat
+  | [] => 0
+  | x :: rest =>
+    (if s.grant ≠ i ∧ (x.ms s.grant).cyc = false then 1 else 0) + idleWaits i (Shared.next c s x) rest
+
+/-- Number of cycles of a run at whose clock edge the grant changes. -/
+def grantChanges (s : ShState) : List BusIn → Nat
+  | [] => 0
+  | x :: rest => (if (Shared.next c s x).grant ≠ s.grant then 1 else 0) + grantChanges (Shared.next c s x) rest
+
+/-- **Bounded waiting.**  From any state with a valid grant, along any run in which master `i` holds `cyc`:
+    (grant changes so far) + (round-robin distance still to go) ≤ (initial distance) ≤ n-1, and likewise for the
+    cycles in which `i` waits while the bus is idle.  Hence `i` becomes the owner after at most `n-1` completed
+    cycles of other masters, and every cycle in which the owner has released the bus brings it strictly closer. -/
+theorem wb_bounded_wait (i : Nat) (hi : i < c.n) (s : ShState) (hg : s.grant < c.n) (ins : List BusIn)
+    (hreq : ∀ x ∈ ins, (x.ms i).cyc = true) :
+    grantChanges c s ins + RoundRobin.dist c.n ((Shared.machine c).runFrom s ins).grant i
+        ≤ RoundRobin.dist c.n s.grant i ∧
+    idleWaits c i s ins + RoundRobin.dist c.n ((Shared.machine c).runFrom s ins).grant i
+        ≤ RoundRobin.dist c.n s.grant i ∧
+    RoundRobin.dist c.n s.grant i ≤ c.n - 1 := by
+  have hreq' : ∀ rc ∈ Shared.reqs ins, rc.1 i = true := by
+    intro rc hrc
+    simp only [Shared.reqs, List.mem_map] at hrc
+    obtain ⟨x, hx, rfl⟩ := hrc
+    exact hreq x hx
+  have hc : ∀ (ins : List BusIn) (s : ShState),
+      grantChanges c s ins = RoundRobin.changes .withdraw c.n s.grant (Shared.reqs ins) := by
+    intro ins
+    induction ins with
+    | nil => intro s; rfl
+    | cons x rest ih => intro s; simp only [grantChanges, Shared.reqs, List.map_cons, RoundRobin.changes]; rw [ih]; rfl
+  have hs : ∀ (ins : List BusIn) (s : ShState),
+      idleWaits c i s ins = RoundRobin.stalls c.n i s.grant (Shared.reqs ins) := by
+    intro ins
+    induction ins with
+    | nil => intro s; rfl
+    | cons x rest ih => intro s; simp only [idleWaits, Shared.reqs, List.map_cons, RoundRobin.stalls]; rw [ih]; rfl
+  rw [hc, hs, Shared.run_grant]
+  have h1 := RoundRobin.rr_bounded_wait hi (Shared.reqs ins) hg hreq'
+  have h2 := RoundRobin.rr_stalls_bounded hi (Shared.reqs ins) hg hreq'
+  exact ⟨h1.1, h2, h1.2⟩
+
+/-- … and once it owns the bus it keeps it for as long as it holds `cyc` (`wb_cycle_owned`), so a waiting master
+    whose distance reached 0 is, and stays, the owner. -/
+theorem wb_granted_of_dist_zero (i : Nat) (hi : i < c.n) (s : ShState) (hg : s.grant < c.n)
+    (h : RoundRobin.dist c.n s.grant i = 0) : s.grant = i :=
+  RoundRobin.dist_eq_zero hg hi h
+
+/-- Terminations seen by master `i` along a run / terminations issued by slaves for strobes of master `i`
+    (cycles in which `i` owns the bus, drives `cyc & stb` to a matching slave, and that slave terminates). -/
+def termsSeen (i : Nat) (s : ShState) : List BusIn → Nat
+  | [] => 0
+  | x :: rest => (if mTerm (Shared.out c s x) i = true then 1 else 0) + termsSeen i (Shared.next c s x) rest
+
+def termsIssued (i : Nat) (s : ShState) : List BusIn → Nat
+  | [] => 0
+  | x :: rest =>
+    (if s.grant = i ∧ ∃ j, j < c.m ∧ c.dec j (x.ms i).adr = true ∧ (x.ms i).cyc = true ∧ (x.ms i).stb = true ∧
+        sTerm x j = true then 1 else 0) + termsIssued i (Shared.next c s x) rest
+
+/-- Every cycle of the run satisfies the slave-side environment assumption. -/
+def BehavedRun (s : ShState) : List BusIn → Prop
+  | [] => True
+  | x :: rest => SlavesBehaved c.m (Shared.out c s x) x ∧ BehavedRun (Shared.next c s x) rest
+
+/-- Along every run (no timeout module, behaved slaves): each master sees exactly as many terminations as
+    slaves issued for its own presented strobes — one per answered request, for every interleaving. -/
+theorem wb_one_termination_run (hd : DisjointDec c.m c.dec) (hto : c.timeout = none) (i : Nat) :
+    ∀ (ins : List BusIn) (s : ShState), BehavedRun c s ins → termsSeen c i s ins = termsIssued c i s ins := by
+  intro ins
+  induction ins with
+  | nil => intro s _; rfl
+  | cons x rest ih =>
+    intro s hb
+    have hdone : Shared.done c s = false := by simp [Shared.done, hto]
+    have h := (wb_one_termination c hd s x hb.1 hdone).1 i
+    simp only [termsSeen, termsIssued]
+    rw [ih _ hb.2]
+    by_cases hm : mTerm (Shared.out c s x) i = true
+    · rw [if_pos hm, if_pos (h.1 hm)]
+    · rw [if_neg hm, if_neg (fun hh => hm (h.2 hh))]
+
+end SharedThms
+
+/-! ### Non-vacuity and the negative witness (InterconnectShared) -/
+section SharedExamples
+
+/-- 2 masters × 2 slaves, slave `j` decodes `adr[1:] == j`, unregistered, no timeout. -/
+def cfgA : ShCfg := { n := 2, m := 2, dec := fun j a => (a >>> 1) == j, reg := false, timeout := none, dw := 8 }
+
+theorem cfgA_disjoint : DisjointDec cfgA.m cfgA.dec := by
+  intro a j k _ _ h1 h2
+  simp [cfgA] at h1 h2
+  omega
+
+/-- Both masters request (master 0 reads slave 1, master 1 writes slave 0); slave 1 acknowledges with 0x42. -/
+def xA : BusIn :=
+  { ms := fun i => if i = 0 then { cyc := true, stb := true, adr := 2 } else { cyc := true, stb := true, we := true, adr := 1, datW := 7 },
+    ss := fun j => if j = 1 then { ack := true, datR := 0x42 } else { datR := 0x99 } }
+
+/-- Master 0 finished, master 1 still requests: the grant moves to master 1 at this edge. -/
+def xA' : BusIn :=
+  { ms := fun i => if i = 0 then {} else { cyc := true, stb := true, we := true, adr := 1, datW := 7 },
+    ss := fun _ => {} }
+
+/-- The hypotheses of the per-cycle theorems are met by a cycle in which things happen: slave 1 (only) sees the
+    cycle, master 0 (only) sees the acknowledge with slave 1's data, the slaves are behaved. -/
+example :
+    let o := Shared.out cfgA (Shared.init cfgA) xA
+    (o.toS 1).cyc = true ∧ (o.toS 0).cyc = false ∧ (o.toM 0).ack = true ∧ (o.toM 1).ack = false ∧
+    (o.toM 0).datR = 0x42 ∧ mTerm o 0 = true ∧ sTerm xA 1 = true := by decide
+
+example : SlavesBehaved cfgA.m (Shared.out cfgA (Shared.init cfgA) xA) xA := by
+  intro j hj h
+  have : j = 0 ∨ j = 1 := by simp [cfgA] at hj; omega
+  rcases this with rfl | rfl
+  · simp [sTerm, xA] at h
+  · decide
+
+/-- Ownership really moves (non-vacuity of `wb_owner_stable`, `wb_bounded_wait`): master 1 waits one cycle while
+    master 0 is served, then is granted after exactly one grant change (= n-1). -/
+example :
+    ((Shared.machine cfgA).run [xA]).grant = 0 ∧ ((Shared.machine cfgA).run [xA, xA']).grant = 1 ∧
+    grantChanges cfgA (Shared.init cfgA) [xA, xA'] = 1 ∧ idleWaits cfgA 1 (Shared.init cfgA) [xA, xA'] = 1 ∧
+    RoundRobin.dist cfgA.n (Shared.init cfgA).grant 1 = 1 := by decide
+
+/-- 1 master × 2 slaves with `register=True`. -/
+def cfgR : ShCfg := { n := 1, m := 2, dec := fun j a => (a >>> 1) == j, reg := true, timeout := none, dw := 8 }
+
+/-- cycle 1: read of address 2 (slave 1), slave 1 acknowledges at once (0-latency) with 0x42;
+    cycle 2: read of address 0 (slave 0), slave 0 acknowledges at once with 0x17 while slave 1 still drives 0x42. -/
+def xR1 : BusIn :=
+  { ms := fun _ => { cyc := true, stb := true, adr := 2 },
+    ss := fun j => if j = 1 then { ack := true, datR := 0x42 } else { datR := 0x99 } }
+def xR2 : BusIn :=
+  { ms := fun _ => { cyc := true, stb := true, adr := 0 },
+    ss := fun j => if j = 0 then { ack := true, datR := 0x17 } else { datR := 0x42 } }
+
+/-- **Negative witness** for the full read-data statement with `register=True` (documented limitation, finding
+    `C06-registered-decoder-0-latency`): the first acknowledge carries 0 instead of slave 1's 0x42, the second
+    carries slave 1's 0x42 instead of slave 0's 0x17.  Both cycles violate only the `hsame` hypothesis of
+    `wb_dat_r_registered_partial`. -/
+example :
+    let s0 := Shared.init cfgR
+    let s1 := Shared.next cfgR s0 xR1
+    cfgR.dec 1 (xR1.ms s0.grant).adr = true ∧ ((Shared.out cfgR s0 xR1).toM 0).ack = true ∧
+      ((Shared.out cfgR s0 xR1).toM 0).datR ≠ (xR1.ss 1).datR ∧
+    cfgR.dec 0 (xR2.ms s1.grant).adr = true ∧ ((Shared.out cfgR s1 xR2).toM 0).ack = true ∧
+      ((Shared.out cfgR s1 xR2).toM 0).datR ≠ (xR2.ss 0).datR ∧
+      ((Shared.out cfgR s1 xR2).toM 0).datR = (xR2.ss 1).datR := by decide
+
+/-- Non-vacuity of `wb_dat_r_registered_partial`: a slave with latency 1 (address held for a second cycle) is read
+    correctly through the registered decoder. -/
+example :
+    let s1 := Shared.next cfgR (Shared.init cfgR) { xR1 with ss := fun _ => {} }
+    ((Shared.out cfgR s1 xR1).toM 0).ack = true ∧ ((Shared.out cfgR s1 xR1).toM 0).datR = 0x42 := by decide
+
+end SharedExamples
+
+/-! ## Crossbar (per-column reuse of the arbiter results, per-row reuse of the decoder results) -/
+section CrossbarThms
+variable (c : XbCfg)
+
+/-- **Routing.**  Slave `j` is driven by exactly one master, the one its arbiter grants: it sees `cyc` iff that
+    master drives `cyc` with an address matching slave `j`'s predicate, and all other signals are that master's. -/
+theorem xb_route (s : XbState) (x : BusIn) (j : Nat) :
+    let o := Crossbar.out c s x
+    let own := x.ms (Crossbar.grant s j)
+    (o.toS j).cyc = (own.cyc && c.dec j own.adr) ∧
+    (o.toS j).stb = own.stb ∧ (o.toS j).we = own.we ∧ (o.toS j).adr = own.adr ∧
+    (o.toS j).datW = own.datW ∧ (o.toS j).sel = own.sel ∧ (o.toS j).cti = own.cti ∧ (o.toS j).bte = own.bte := by
+  simp [Crossbar.out, Crossbar.colReq, Crossbar.sel]
+
+/-- With disjoint decoders a master's cycle is presented to at most one slave. -/
+theorem xb_route_one_slave (hd : DisjointDec c.m c.dec) (s : XbState) (x : BusIn) (i j k : Nat)
+    (hj : j < c.m) (hk : k < c.m) (gj : Crossbar.grant s j = i) (gk : Crossbar.grant s k = i)
+    (h1 : ((Crossbar.out c s x).toS j).cyc = true) (h2 : ((Crossbar.out c s x).toS k).cyc = true) : j = k := by
+  simp [Crossbar.out, Crossbar.colReq, Crossbar.sel, gj, gk] at h1 h2
+  exact hd _ j k hj hk h1.2 h2.2
+
+/-- A slave whose predicate does not match its granted master's address sees no cycle; in particular a cycle whose
+    address matches no decoder is presented nowhere. -/
+theorem xb_route_none (s : XbState) (x : BusIn) (j : Nat)
+    (hno : c.dec j (x.ms (Crossbar.grant s j)).adr = false) : ((Crossbar.out c s x).toS j).cyc = false := by
+  simp [Crossbar.out, Crossbar.colReq, Crossbar.sel, hno]
+
+/-- In every reachable state every column's owner is one of the masters. -/
+theorem xb_owner_is_master (hn : 0 < c.n) (ins : List BusIn) (j : Nat) (hj : j < c.m) :
+    Crossbar.grant ((Crossbar.machine c).run ins) j < c.n :=
+  Crossbar.grantsOk_run c hn ins j hj
+
+/-- **Answers reach the owner only.**  A master that sees `ack` (`err`) owns a slave that drives `ack` (`err`). -/
+theorem xb_answer_owner_only (s : XbState) (x : BusIn) (i : Nat) :
+    let o := Crossbar.out c s x
+    ((o.toM i).ack = true → ∃ j, j < c.m ∧ Crossbar.grant s j = i ∧ (x.ss j).ack = true) ∧
+    ((o.toM i).err = true → ∃ j, j < c.m ∧ Crossbar.grant s j = i ∧ (x.ss j).err = true) := by
+  constructor <;>
+  · intro h
+    simp only [Crossbar.out, orAll_true, Bool.and_eq_true, beq_iff_eq] at h
+    obtain ⟨j, hj, h1, h2⟩ := h
+    exact ⟨j, hj, h2, h1⟩
+
+theorem xb_only_selected_answers (hd : DisjointDec c.m c.dec) (s : XbState) (x : BusIn)
+    (hb : SlavesBehaved c.m (Crossbar.out c s x) x) (i j : Nat) (hj : j < c.m)
+    (hsel : c.dec j (x.ms i).adr = true) (k : Nat) (hk : k < c.m) (hne : k ≠ j)
+    (hg : Crossbar.grant s k = i) : sTerm x k = false := by
+  cases h : sTerm x k
+  · rfl
+  · have := (hb k hk h).1
+    simp [Crossbar.out, Crossbar.colReq, Crossbar.sel, hg] at this
+    exact absurd (hd _ k j hk hj this.2 hsel) hne
+
+/-- Behaved slaves, disjoint decoders: master `i`'s `ack`/`err` are exactly those of the slave its address
+    selects, gated by that slave's grant. -/
+theorem xb_answer_selected (hd : DisjointDec c.m c.dec) (s : XbState) (x : BusIn)
+    (hb : SlavesBehaved c.m (Crossbar.out c s x) x) (i j : Nat) (hj : j < c.m)
+    (hsel : c.dec j (x.ms i).adr = true) :
+    let o := Crossbar.out c s x
+    (o.toM i).ack = ((x.ss j).ack && (Crossbar.grant s j == i)) ∧
+    (o.toM i).err = ((x.ss j).err && (Crossbar.grant s j == i)) := by
+  have hothers := xb_only_selected_answers c hd s x hb i j hj hsel
+  constructor
+  · simp only [Crossbar.out]
+    apply orAll_unique hj
+    intro k hk hne
+    by_cases hg : Crossbar.grant s k = i
+    · have := hothers k hk hne hg
+      simp [sTerm] at this
+      simp [this.1]
+    · simp [hg]
+  · simp only [Crossbar.out]
+    apply orAll_unique hj
+    intro k hk hne
+    by_cases hg : Crossbar.grant s k = i
+    · have := hothers k hk hne hg
+      simp [sTerm] at this
+      simp [this.2]
+    · simp [hg]
+
+/-- Unregistered decoders: master `i` reads the data of the slave its address selects. -/
+theorem xb_dat_r (hd : DisjointDec c.m c.dec) (hreg : c.reg = false) (s : XbState) (x : BusIn)
+    (i j : Nat) (hj : j < c.m) (hsel : c.dec j (x.ms i).adr = true) :
+    ((Crossbar.out c s x).toM i).datR = (x.ss j).datR := by
+  simp only [Crossbar.out]
+  rw [orDat_unique hj]
+  · simp [gate, Crossbar.selMux, hreg, Crossbar.sel, hsel]
+  · intro k hk hne
+    cases hs : c.dec k (x.ms i).adr
+    · simp [gate, Crossbar.selMux, hreg, Crossbar.sel, hs]
+    · exact absurd (hd _ k j hk hj hs hsel) hne
+
+/-- FULL STATEMENT (fails for `register=True`): `c.dec j (x.ms i).adr → (o.toM i).datR = (x.ss j).datR` in every
+    cycle.  With registered decoders it needs master `i`'s previous-cycle address to decode like the current one. -/
+theorem xb_dat_r_registered_partial (hd : DisjointDec c.m c.dec) (hreg : c.reg = true)
+    (s : XbState) (x₁ x₂ : BusIn) (i : Nat) (hi : i < c.n)
+    (hsame : ∀ k, k < c.m → c.dec k (x₁.ms i).adr = c.dec k (x₂.ms i).adr)
+    (j : Nat) (hj : j < c.m) (hsel : c.dec j (x₂.ms i).adr = true) :
+    ((Crossbar.out c (Crossbar.next c s x₁) x₂).toM i).datR = (x₂.ss j).datR := by
+  have hselR : ∀ k, k < c.m → Crossbar.selMux c (Crossbar.next c s x₁) x₂ i k = c.dec k (x₂.ms i).adr := by
+    intro k hk
+    unfold Crossbar.selMux
+    simp only [hreg, if_true]
+    rw [Crossbar.selR_next c hreg s x₁ i k hi hk]
+    exact hsame k hk
+  simp only [Crossbar.out]
+  rw [orDat_unique hj]
+  · simp [gate, hselR j hj, hsel]
+  · intro k hk hne
+    rw [hselR k hk]
+    cases hs : c.dec k (x₂.ms i).adr
+    · simp [gate]
+    · exact absurd (hd _ k j hk hj hs hsel) hne
+
+/-- **Ownership is stable** per slave: the grant of column `j` moves only when its owner does not request slave
+    `j` in that cycle (cyc low or address elsewhere), and then to a master that does. -/
+theorem xb_owner_stable (s : XbState) (x : BusIn) (j : Nat) (hj : j < c.m) (hg : Crossbar.grant s j < c.n)
+    (h : Crossbar.grant (Crossbar.next c s x) j ≠ Crossbar.grant s j) :
+    Crossbar.colReq c x j (Crossbar.grant s j) = false ∧
+    Crossbar.colReq c x j (Crossbar.grant (Crossbar.next c s x) j) = true := by
+  rw [Crossbar.grant_next c s x j hj] at h ⊢
+  have := RoundRobin.next_change_req .withdraw (Crossbar.colReq c x j) true hg h
+  exact ⟨this.2, this.1⟩
+
+/-- While the owner of slave `j` keeps requesting it, it keeps the slave. -/
+theorem xb_cycle_owned (s : XbState) (j : Nat) (hj : j < c.m) (hg : Crossbar.grant s j < c.n) (ins : List BusIn)
+    (hold : ∀ x ∈ ins, Crossbar.colReq c x j (Crossbar.grant s j) = true) :
+    Crossbar.grant ((Crossbar.machine c).runFrom s ins) j = Crossbar.grant s j := by
+  rw [Crossbar.run_grant c j hj]
+  apply RoundRobin.rr_keep_granted hg
+  intro rc hrc
+  simp only [Crossbar.reqs, List.mem_map] at hrc
+  obtain ⟨x, hx, rfl⟩ := hrc
+  exact hold x hx
+
+/-- **Exactly one termination** (crossbar): with behaved slaves and disjoint decoders master `i` sees a termination
+    iff it owns a slave that it addresses with `cyc & stb` and that terminates; a terminating slave is seen by its
+    owner and by no other master. -/
+theorem xb_one_termination (s : XbState) (x : BusIn) (hb : SlavesBehaved c.m (Crossbar.out c s x) x) :
+    let o := Crossbar.out c s x
+    (∀ i, mTerm o i = true ↔
+      ∃ j, j < c.m ∧ Crossbar.grant s j = i ∧ c.dec j (x.ms i).adr = true ∧ (x.ms i).cyc = true ∧
+        (x.ms i).stb = true ∧ sTerm x j = true) ∧
+    (∀ j, j < c.m → sTerm x j = true → mTerm o (Crossbar.grant s j) = true) := by
+  have mterm : ∀ i, mTerm (Crossbar.out c s x) i = true ↔
+      ∃ j, j < c.m ∧ Crossbar.grant s j = i ∧ sTerm x j = true := by
+    intro i
+    simp only [mTerm, Crossbar.out, Bool.or_eq_true, orAll_true, Bool.and_eq_true, beq_iff_eq, sTerm]
+    constructor
+    · rintro (⟨j, hj, h, hg⟩ | ⟨j, hj, h, hg⟩)
+      · exact ⟨j, hj, hg, Or.inl h⟩
+      · exact ⟨j, hj, hg, Or.inr h⟩
+    · rintro ⟨j, hj, hg, h | h⟩
+      · exact Or.inl ⟨j, hj, h, hg⟩
+      · exact Or.inr ⟨j, hj, h, hg⟩
+  refine ⟨fun i => ?_, fun j hj h => (mterm _).2 ⟨j, hj, rfl, h⟩⟩
+  rw [mterm]
+  constructor
+  · rintro ⟨j, hj, hg, h⟩
+    have := hb j hj h
+    simp [Crossbar.out, Crossbar.colReq, Crossbar.sel, hg] at this
+    exact ⟨j, hj, hg, this.1.2, this.1.1, this.2, h⟩
+  · rintro ⟨j, hj, hg, _, _, _, h⟩
+    exact ⟨j, hj, hg, h⟩
+
+/-- With disjoint decoders at most one of the slaves a master owns can be terminating in a cycle: a master never
+    receives two terminations at once. -/
+theorem xb_termination_to_owner_only (hd : DisjointDec c.m c.dec) (s : XbState) (x : BusIn)
+    (hb : SlavesBehaved c.m (Crossbar.out c s x) x) (i : Nat) (j k : Nat) (hj : j < c.m) (hk : k < c.m)
+    (gj : Crossbar.grant s j = i) (gk : Crossbar.grant s k = i)
+    (tj : sTerm x j = true) (tk : sTerm x k = true) : j = k := by
+  have h1 := (hb j hj tj).1
+  have h2 := (hb k hk tk).1
+  exact xb_route_one_slave c hd s x i j k hj hk gj gk h1 h2
+
+/-- Cycles in which master `i` requests slave `j`, is not its owner, and the owner does not request it. -/
+def xbIdleWaits (i j : Nat) (s : XbState) : List BusIn → Nat
+  | [] => 0
+  | x :: rest =>
+    (if Crossbar.grant s j ≠ i ∧ Crossbar.colReq c x j (Crossbar.grant s j) = false then 1 else 0) +
+      xbIdleWaits i j (Crossbar.next c s x) rest
+
+def xbGrantChanges (j : Nat) (s : XbState) : List BusIn → Nat
+  | [] => 0
+  | x :: rest =>
+    (if Crossbar.grant (Crossbar.next c s x) j ≠ Crossbar.grant s j then 1 else 0) +
+      xbGrantChanges j (Crossbar.next c s x) rest
+
+/-- **Bounded waiting** per slave: a master that keeps requesting slave `j` is granted after at most `n-1` grant
+    changes of column `j`, and waits through at most `n-1` cycles in which slave `j` is not being requested by its
+    owner. -/
+theorem xb_bounded_wait (i j : Nat) (hi : i < c.n) (hj : j < c.m) (s : XbState) (hg : Crossbar.grant s j < c.n)
+    (ins : List BusIn) (hreq : ∀ x ∈ ins, Crossbar.colReq c x j i = true) :
+    xbGrantChanges c j s ins + RoundRobin.dist c.n (Crossbar.grant ((Crossbar.machine c).runFrom s ins) j) i
+        ≤ RoundRobin.dist c.n (Crossbar.grant s j) i ∧
+    xbIdleWaits c i j s ins + RoundRobin.dist c.n (Crossbar.grant ((Crossbar.machine c).runFrom s ins) j) i
+        ≤ RoundRobin.dist c.n (Crossbar.grant s j) i ∧
+    RoundRobin.dist c.n (Crossbar.grant s j) i ≤ c.n - 1 := by
+  have hreq' : ∀ rc ∈ Crossbar.reqs c j ins, rc.1 i = true := by
+    intro rc hrc
+    simp only [Crossbar.reqs, List.mem_map] at hrc
+    obtain ⟨x, hx, rfl⟩ := hrc
+    exact hreq x hx
+  have hc : ∀ (ins : List BusIn) (s : XbState),
+      xbGrantChanges c j s ins = RoundRobin.changes .withdraw c.n (Crossbar.grant s j) (Crossbar.reqs c j ins) := by
+    intro ins
+    induction ins with
+    | nil => intro s; rfl
+    | cons x rest ih =>
+      intro s
+      simp only [xbGrantChanges, Crossbar.reqs, List.map_cons, RoundRobin.changes]
+      rw [ih, Crossbar.grant_next c s x j hj]; rfl
+  have hs : ∀ (ins : List BusIn) (s : XbState),
+      xbIdleWaits c i j s ins = RoundRobin.stalls c.n i (Crossbar.grant s j) (Crossbar.reqs c j ins) := by
+    intro ins
+    induction ins with
+    | nil => intro s; rfl
+    | cons x rest ih =>
+      intro s
+      simp only [xbIdleWaits, Crossbar.reqs, List.map_cons, RoundRobin.stalls]
+      rw [ih, Crossbar.grant_next c s x j hj]; rfl
+  rw [hc, hs, Crossbar.run_grant c j hj]
+  have h1 := RoundRobin.rr_bounded_wait hi (Crossbar.reqs c j ins) hg hreq'
+  have h2 := RoundRobin.rr_stalls_bounded hi (Crossbar.reqs c j ins) hg hreq'
+  exact ⟨h1.1, h2, h1.2⟩
+
+end CrossbarThms
+
+/-! ### Non-vacuity and negative witness (Crossbar), point-to-point -/
+section CrossbarExamples
+
+def xcfgA : XbCfg := { n := 2, m := 2, dec := fun j a => (a >>> 1) == j, reg := false }
+def xcfgR : XbCfg := { n := 1, m := 2, dec := fun j a => (a >>> 1) == j, reg := true }
+
+/-- Both masters address slave 1 in the same cycle; slave 1 acknowledges: only master 0 (the owner) sees it.
+    Next cycle master 0 has finished and master 1 becomes the owner of slave 1 (one grant change = n-1). -/
+def xX : BusIn :=
+  { ms := fun i => if i = 0 then { cyc := true, stb := true, adr := 2 } else { cyc := true, stb := true, we := true, adr := 3, datW := 7 },
+    ss := fun j => if j = 1 then { ack := true, datR := 0x42 } else { datR := 0x99 } }
+def xX' : BusIn :=
+  { ms := fun i => if i = 0 then {} else { cyc := true, stb := true, we := true, adr := 3, datW := 7 }, ss := fun _ => {} }
+
+example :
+    let o := Crossbar.out xcfgA (Crossbar.init xcfgA) xX
+    (o.toS 1).cyc = true ∧ (o.toS 1).adr = 2 ∧ (o.toS 0).cyc = false ∧
+    (o.toM 0).ack = true ∧ (o.toM 0).datR = 0x42 ∧ (o.toM 1).ack = false ∧
+    Crossbar.grant ((Crossbar.machine xcfgA).run [xX, xX']) 1 = 1 ∧
+    xbGrantChanges xcfgA 1 (Crossbar.init xcfgA) [xX, xX'] = 1 := by decide
+
+/-- Negative witness for the registered crossbar decoder (same 0-latency scenario as for the shared bus). -/
+example :
+    let s0 := Crossbar.init xcfgR
+    let s1 := Crossbar.next xcfgR s0 xR1
+    ((Crossbar.out xcfgR s0 xR1).toM 0).ack = true ∧ ((Crossbar.out xcfgR s0 xR1).toM 0).datR ≠ (xR1.ss 1).datR ∧
+    ((Crossbar.out xcfgR s1 xR2).toM 0).ack = true ∧ ((Crossbar.out xcfgR s1 xR2).toM 0).datR = (xR2.ss 1).datR ∧
+    ((Crossbar.out xcfgR s1 xR2).toM 0).datR ≠ (xR2.ss 0).datR := by decide
+
+/-- `InterconnectPointToPoint` is a wire in both directions. -/
+theorem p2p_transparent (x : BusIn) :
+    (P2P.out () x).toS 0 = x.ms 0 ∧ (P2P.out () x).toM 0 = x.ss 0 := ⟨rfl, rfl⟩
+
+end CrossbarExamples
 
 end Litex.C06
